@@ -13,10 +13,15 @@ import (
 	"errors"
 	"fmt"
 	"net"
+	"os"
 	"strings"
 	"time"
 
+	"github.com/PurpleSec/logx"
+	"github.com/iDigitalFlame/xmt/c2"
 	"github.com/iDigitalFlame/xmt/c2/cfg"
+	"github.com/iDigitalFlame/xmt/com"
+	"github.com/iDigitalFlame/xmt/device/local"
 	"github.com/iDigitalFlame/xmt/c2/transform"
 	"github.com/iDigitalFlame/xmt/c2/wrapper"
 	"github.com/iDigitalFlame/xmt/data"
@@ -801,6 +806,437 @@ func doConfig(weights []int, sels []int, rich bool, opsLen int, style int, class
 	}
 }
 
+// ---------------------------------------------------------------- the consumer: the REAL Session.listen
+//
+// A real Server with one Listener per (wrapper, transform) kind; a client Session whose Profile is a
+// multi-group Profile built by the real Build (groups WITH and WITHOUT hosts), seen through a
+// forwarding spy that marks which FastRandN calls belong to Switch and which to Next.  Every
+// entry's connector is replaced by one that records its group and dials the Listener of ITS OWN
+// group's kind, so an exchange succeeds exactly when the Session wraps it with the wrapper and
+// transform of the group whose connector it went through.  Connect failures, the Close() and a
+// Profile swap are scripted by Connect index.
+
+type lrun struct {
+	segs     []*lseg
+	fails    map[int]bool
+	closeAt  int
+	swapAt   int // Connect index at which segment 1 is stored in s.swap (-1: never)
+	sess     *c2.Session
+	ready    chan struct{}
+	events   [][4]int64
+	lastConn int64
+	lastHost int64   // the last non-empty host any Next() handed out
+	handed   []int64 // lastHost at each Connect
+	failNow  bool
+	over     bool
+}
+type lseg struct {
+	specs   []*spec
+	ents    []*spec // order of g.entries
+	order   []int64
+	sel     int
+	g       *cfg.Group
+	entered bool
+	enter   []int64
+	passes  []lpass
+	lastW   cfg.Wrapper
+	lastT   cfg.Transform
+}
+type lpass struct {
+	e        bool
+	ds1, ds2 []int64
+}
+
+var (
+	lsrv      *c2.Server
+	lkinds    = map[[2]int64]string{}
+	lcur      *lrun
+	errScript = errors.New("scripted connect failure")
+)
+
+func drawsOf(cs [][2]int64) []int64 {
+	ds := make([]int64, len(cs))
+	for i, c := range cs {
+		ds[i] = c[1]
+	}
+	return ds
+}
+
+type spy struct {
+	cfg.Profile
+	r   *lrun
+	seg *lseg
+}
+
+func (p spy) Switch(e bool) bool {
+	dbg("  switch(%v) %s", e, time.Now().Format("05.000"))
+	calls = nil
+	v := p.Profile.Switch(e)
+	p.seg.passes = append(p.seg.passes, lpass{e: e, ds1: drawsOf(calls)})
+	return v
+}
+func (p spy) Next() (string, cfg.Wrapper, cfg.Transform) {
+	calls = nil
+	h, w, t := p.Profile.Next()
+	if !p.seg.entered {
+		p.seg.entered, p.seg.enter = true, drawsOf(calls)
+	} else if n := len(p.seg.passes); n > 0 {
+		p.seg.passes[n-1].ds2 = drawsOf(calls)
+	}
+	p.seg.lastW, p.seg.lastT = w, t
+	if h != "" {
+		p.r.lastHost = hostID(h)
+	}
+	return h, w, t
+}
+func (p spy) Connect(x context.Context, a string) (net.Conn, error) {
+	r := p.r
+	idx := len(r.events)
+	w, t := p.seg.lastW, p.seg.lastT
+	if idx > 0 {
+		<-r.ready
+		w, t = c2.VerifC17Held(r.sess)
+	}
+	r.failNow, r.lastConn = r.fails[idx], -1
+	if idx > r.closeAt+3 {
+		r.over, r.failNow = true, true
+	}
+	c, err := p.Profile.Connect(x, a)
+	dbg("  connect %d err=%v %s", idx, err, time.Now().Format("05.000"))
+	r.events = append(r.events, [4]int64{r.lastConn, hostID(a), wrapObs(w), transObs(t)})
+	r.handed = append(r.handed, r.lastHost)
+	if idx > 0 {
+		if idx == r.swapAt && len(r.segs) > 1 {
+			c2.VerifC17SetSwap(r.sess, spy{Profile: r.segs[1].g, r: r, seg: r.segs[1]})
+		}
+		if idx >= r.closeAt {
+			c2.VerifC17CloseNoWait(r.sess)
+		}
+	}
+	return c, err
+}
+
+// dialConn replaces an entry's connector: it says which group it belongs to and dials the
+// Listener of that group's (wrapper, transform) kind, whatever host it is handed.
+type dialConn struct {
+	id   int64
+	addr string
+}
+
+func (d dialConn) Connect(x context.Context, _ string) (net.Conn, error) {
+	lcur.lastConn = d.id
+	if lcur.failNow {
+		return nil, errScript
+	}
+	return com.TCP.Connect(x, d.addr)
+}
+
+func listenerFor(sp *spec) string {
+	k := [2]int64{sp.wrapID(), sp.transID()}
+	if a, ok := lkinds[k]; ok {
+		return a
+	}
+	// the wrapper / transform objects of this kind, from a single-group Config built for real
+	one := *sp
+	one.hosts, one.sel = []string{"g0h0.example"}, selNone
+	var c cfg.Config
+	c.AddGroup(one.settings()...)
+	p, err := c.Build()
+	if err != nil {
+		panic("harness: listener profile: " + err.Error())
+	}
+	_, w, t := p.Next()
+	if wrapObs(w) != k[0] || transObs(t) != k[1] {
+		panic("harness: listener profile has another wrapper/transform than asked for")
+	}
+	l, err := lsrv.Listen(fmt.Sprintf("c17-%d", len(lkinds)), "127.0.0.1:0", cfg.Static{L: com.TCP, W: w, T: t})
+	if err != nil {
+		panic("harness: listen: " + err.Error())
+	}
+	lkinds[k] = l.Address()
+	// Server.ListenContext reads s.active without a lock while the server loop stores the
+	// previous Listener in it: two Listen calls in quick succession are a data race (Go aborts
+	// with "concurrent map read and map write").  Give the loop time to store this one.
+	time.Sleep(10 * time.Millisecond)
+	return lkinds[k]
+}
+
+func buildSeg(specs []*spec, class string, desc map[string]interface{}) *lseg {
+	var c cfg.Config
+	for _, s := range specs {
+		c.AddGroup(s.settings()...)
+	}
+	p, err := c.Build()
+	if err != nil {
+		desc["error"] = fmt.Sprint(err)
+		out.Fail("a valid multi-group Config (with a host-less group) did not build", "build-failed-hostless", desc)
+		return nil
+	}
+	g, ok := p.(*cfg.Group)
+	if !ok || cfg.VerifGroupLen(g) != len(specs) {
+		out.Fail("a multi-group Config did not build to a *Group with one entry per group", "multi-not-group", desc)
+		return nil
+	}
+	sg := &lseg{specs: specs, g: g, sel: int(cfg.VerifGroupSel(g))}
+	for i := 0; i < len(specs); i++ {
+		_, w := cfg.VerifGroupHost0(g, i)
+		var found *spec
+		for k, s := range specs {
+			if s.capWeight() == int64(w) {
+				found = s
+				sg.order = append(sg.order, int64(k))
+			}
+		}
+		if found == nil || len(sg.order) != i+1 {
+			panic("harness: consumer scenarios need pairwise different weights")
+		}
+		sg.ents = append(sg.ents, found)
+		cfg.VerifGroupSetConn(g, i, dialConn{id: found.connID(), addr: listenerFor(found)})
+	}
+	return sg
+}
+
+func (sg *lseg) coq() string {
+	var se, ps []string
+	for _, s := range sg.specs {
+		se = append(se, s.coq())
+	}
+	for _, p := range sg.passes {
+		ps = append(ps, fmt.Sprintf("(mkPass %s %s %s)", vh.B(p.e), vh.ZList64(p.ds1), vh.ZList64(p.ds2)))
+	}
+	return fmt.Sprintf("(%s,%s,%s,%s,%s)", vh.List(se), vh.ZList64(sg.order), vh.Z(int64(sg.sel)), vh.ZList64(sg.enter), vh.List(ps))
+}
+
+func specByConn(r *lrun, id int64) *spec {
+	for _, sg := range r.segs {
+		for _, s := range sg.specs {
+			if s.connID() == id {
+				return s
+			}
+		}
+	}
+	return nil
+}
+
+// lspec makes a group for the consumer scenarios: 1 ms sleep, no jitter / kill date / work hours.
+func lspec(id, weight, sel, nhosts, wrap, trans int) *spec {
+	if v := os.Getenv("C17_PLAIN"); v != "" {
+		// timing experiments: "t" keeps the transform, "wN" forces wrapper kind N
+		if v == "t" {
+			wrap = 0
+		} else if v[0] == 'w' {
+			wrap, trans = int(v[1]-'0'), 0
+		} else {
+			wrap, trans = 0, 0
+		}
+	}
+	s := &spec{id: id, weight: weight, sel: sel, wrap: wrap, trans: trans, sleep: time.Millisecond}
+	for j := 0; j < nhosts; j++ {
+		s.hosts = append(s.hosts, fmt.Sprintf("g%dh%d.example", id, j))
+	}
+	return s
+}
+
+type lscen struct {
+	r     *lrun
+	desc  map[string]interface{}
+	class string
+}
+
+var lscens []*lscen
+
+// runListen only PREPARES the scenario (builds the profiles and makes sure the Listeners exist);
+// the sessions run afterwards, from runPrepared: Server.Listen is not safe to call while the
+// server is handling connections (unlocked map access in ListenContext).
+func runListen(segSpecs [][]*spec, fails map[int]bool, closeAt, swapAt int, class string) {
+	var sj []interface{}
+	for _, ss := range segSpecs {
+		var one []interface{}
+		for _, s := range ss {
+			one = append(one, s.json())
+		}
+		sj = append(sj, one)
+	}
+	var fl []int
+	for i := 0; i <= closeAt+1; i++ {
+		if fails[i] {
+			fl = append(fl, i)
+		}
+	}
+	desc := map[string]interface{}{"profiles": sj, "failing_connects": fl, "close_at_connect": closeAt, "swap_at_connect": swapAt}
+	r := &lrun{fails: fails, closeAt: closeAt, swapAt: swapAt, ready: make(chan struct{})}
+	for _, ss := range segSpecs {
+		sg := buildSeg(ss, class, desc)
+		if sg == nil {
+			return
+		}
+		r.segs = append(r.segs, sg)
+	}
+	lscens = append(lscens, &lscen{r: r, desc: desc, class: class})
+}
+
+func runPrepared(sc *lscen) {
+	r, desc, class := sc.r, sc.desc, sc.class
+	cfg.VerifSetRandN(hook)
+	defer cfg.VerifSetRandN(nil)
+	lcur = r
+	old := local.UUID
+	b := rng.Bytes(len(local.UUID))
+	b[0] |= 1
+	copy(local.UUID[:], b)
+	ctx, cancel := context.WithCancel(context.Background())
+	var clog logx.Log = logx.NOP
+	if os.Getenv("C17_DEBUG") == "2" {
+		clog = logx.Writer(os.Stderr, logx.Trace)
+	}
+	s, err := c2.ConnectContext(ctx, clog, spy{Profile: r.segs[0].g, r: r, seg: r.segs[0]})
+	local.UUID = old
+	if err == nil {
+		r.sess = s
+		close(r.ready)
+		select {
+		case <-s.Done():
+		case <-time.After(60 * time.Second):
+			cancel()
+			desc["connects"] = len(r.events)
+			out.Fail("the client did not stop within 60 s", "consumer-scenario-timeout", desc)
+			<-s.Done()
+		}
+	} else {
+		desc["connect_error"] = err.Error()
+	}
+	cancel()
+	if r.over {
+		out.Fail("the client kept connecting after Close()", "consumer-scenario-overrun", desc)
+	}
+	// oracle: every Connect goes through the active group's connector holding THAT group's wrapper
+	// and transform, to one of its hosts -- or, when it names none, to the last host any group handed out
+	var hist, evs []string
+	moved := 0
+	for i, e := range r.events {
+		hist = append(hist, fmt.Sprintf("#%d connector=%d host=%d wrapper=%d transform=%d", i, e[0], e[1], e[2], e[3]))
+		evs = append(evs, vh.ZList64(e[:]))
+		if i > 0 && e[0] != r.events[i-1][0] {
+			moved++
+		}
+	}
+	desc["connects"] = hist
+	for i, e := range r.events {
+		sp := specByConn(r, e[0])
+		if sp == nil {
+			continue
+		}
+		d2 := map[string]interface{}{}
+		for k, v := range desc {
+			d2[k] = v
+		}
+		d2["failing_connect"] = i
+		d2["active_group"] = sp.json()
+		if e[2] != sp.wrapID() || e[3] != sp.transID() {
+			k := "consumer-holds-foreign-wrapper-transform"
+			if len(sp.hosts) == 0 {
+				k += "-hostless-group"
+			}
+			out.Fail(fmt.Sprintf("Connect #%d goes through group %d's connector while the session holds wrapper %d / transform %d (the group's own: %d / %d)",
+				i, sp.id, e[2], e[3], sp.wrapID(), sp.transID()), k, d2)
+		}
+		if len(sp.hosts) > 0 && !inHosts(sp, e[1]) {
+			out.Fail(fmt.Sprintf("Connect #%d goes through group %d's connector to a host that is not one of the group's", i, sp.id), "consumer-host-not-the-active-groups", d2)
+		}
+		if len(sp.hosts) == 0 && e[1] != r.handed[i] {
+			out.Fail(fmt.Sprintf("Connect #%d: a host-less group changed the host the session talks to", i), "consumer-hostless-group-changed-host", d2)
+		}
+	}
+	var ss []string
+	for _, sg := range r.segs {
+		if sg.entered {
+			ss = append(ss, sg.coq())
+		}
+	}
+	out.Add(fmt.Sprintf("CListen %s %s", vh.List(ss), vh.List(evs)), class, len(r.events) >= 3 && moved >= 1, desc)
+}
+
+func runConsumer(thorough bool) {
+	lsrv = c2.NewServer(logx.NOP)
+	lsrv.Keys.Fill()
+	// the Server is left running until the process exits: Server.Close with several Listeners
+	// deadlocks (each Listener.listen blocks sending its name to the server loop, which is itself
+	// blocked in shutdown() waiting for Listener.Close)
+	bias0 = 25
+	A := func(id, w, sel int) *spec { return lspec(id, w, sel, 1, 1, 0) }  // host, hex
+	Bn := func(id, w, sel int) *spec { return lspec(id, w, sel, 0, 4, 1) } // NO host, base64 + b64 transform
+	C := func(id, w, sel int) *spec { return lspec(id, w, sel, 2, 2, 2) }  // two hosts, zlib + shift transform
+	none := map[int]bool{}
+	// corpus: the seeded-change scenario first (round-robin over A and host-less B)
+	runListen([][]*spec{{A(0, 20, selRR), Bn(1, 10, 0)}}, none, 6, -1, "listen/corpus")
+	runListen([][]*spec{{A(0, 20, selLV), Bn(1, 10, 0)}}, map[int]bool{2: true, 5: true}, 8, -1, "listen/corpus")
+	runListen([][]*spec{{A(0, 30, 0), Bn(1, 20, selLV), C(2, 10, 0)}}, map[int]bool{1: true, 2: true, 4: true}, 8, -1, "listen/corpus")
+	runListen([][]*spec{{A(0, 30, 0), Bn(1, 20, selRR), C(2, 10, 0)}}, none, 8, -1, "listen/corpus")
+	runListen([][]*spec{{A(0, 30, 0), Bn(1, 20, selRR), C(2, 10, 0)}}, map[int]bool{3: true}, 8, -1, "listen/corpus")
+	runListen([][]*spec{{C(0, 30, selRand), Bn(1, 20, 0), A(2, 10, 0)}}, map[int]bool{2: true}, 9, -1, "listen/corpus")
+	// a Profile swap to a profile whose heaviest group has no host
+	runListen([][]*spec{{A(0, 20, selRR), C(1, 10, 0)}, {Bn(3, 40, selLV), A(4, 30, 0)}}, map[int]bool{5: true}, 9, 3, "listen/corpus-swap")
+	runListen([][]*spec{{A(0, 20, selLV), Bn(1, 10, 0)}, {C(3, 40, selRR), Bn(4, 30, 0)}}, map[int]bool{1: true}, 8, 2, "listen/corpus-swap")
+	// grid / random
+	n := 40
+	if thorough {
+		n = 600
+	}
+	sels := []int{selRR, selLV, selRR, selLV, selRand, selSemiRR, selSemiRn, selSemiLV, selNone}
+	for i := 0; i < n; i++ {
+		mk := func(base int) []*spec {
+			k := 2 + rng.Intn(3)
+			ss := make([]*spec, k)
+			hostless := rng.Intn(k)
+			for j := range ss {
+				nh := 1 + rng.Intn(2)
+				if j == hostless || rng.Intn(4) == 0 {
+					nh = 0
+				}
+				ss[j] = lspec(base+j, 10*(k-j)+rng.Intn(9), 0, nh, []int{0, 1, 2, 3, 4, 5, 6, 7, 8}[rng.Intn(9)], rng.Intn(3))
+			}
+			ss[rng.Intn(k)].sel = sels[i%len(sels)]
+			return ss
+		}
+		first := mk(0)
+		// the entry Build puts first is the heaviest: it must name a host (ErrNoHost otherwise)
+		if len(first[0].hosts) == 0 {
+			first[0].hosts = []string{"g0h0.example"}
+		}
+		segs := [][]*spec{first}
+		swapAt := -1
+		closeAt := 5 + rng.Intn(6)
+		if rng.Intn(4) == 0 {
+			segs = append(segs, mk(6))
+			swapAt = 1 + rng.Intn(closeAt-2)
+		}
+		fails := map[int]bool{}
+		for k := 1; k <= closeAt+1; k++ {
+			if rng.Intn(4) == 0 {
+				fails[k] = true
+			}
+		}
+		cl := "listen/" + selName(sels[i%len(sels)])
+		if swapAt >= 0 {
+			cl += "+swap"
+		}
+		runListen(segs, fails, closeAt, swapAt, cl)
+	}
+	time.Sleep(50 * time.Millisecond)
+	dbg("prepared %d consumer scenarios, %d listeners, %s", len(lscens), len(lkinds), time.Now().Format("15:04:05.000"))
+	for _, sc := range lscens {
+		t0 := time.Now()
+		runPrepared(sc)
+		dbg("consumer scenario %s fails=%v connects=%d took %s", sc.class, sc.desc["failing_connects"], len(sc.r.events), time.Since(t0))
+	}
+}
+
+func dbg(f string, a ...interface{}) {
+	if os.Getenv("C17_DEBUG") != "" {
+		fmt.Fprintf(os.Stderr, f+"\n", a...)
+	}
+}
+
 func selsFor(n int, sel int, where int) []int {
 	s := make([]int, n)
 	switch where {
@@ -834,6 +1270,11 @@ func main() {
 		keyPool = append(keyPool, mkKey(byte(17*i+3)))
 	}
 	allSel := []int{selNone, selLV, selRR, selRand, selSemiRR, selSemiRn, selSemiLV}
+
+	// the consumer first (real sessions), then the profile-level histories
+	dbg("start %s", time.Now().Format("15:04:05.000"))
+	runConsumer(thorough)
+	dbg("consumer done %s", time.Now().Format("15:04:05.000"))
 
 	// corpus
 	bias0 = 25
@@ -869,5 +1310,6 @@ func main() {
 		doConfig(weightsFor(n, 4+rng.Intn(2)*(-3)), selsFor(n, sel, rng.Intn(4)), rng.Intn(3) > 0, 1+rng.Intn(40), rng.Intn(3),
 			fmt.Sprintf("random-n%d-%s", n, selName(sel)), rng.Intn(10) == 0)
 	}
+	dbg("histories done %s", time.Now().Format("15:04:05.000"))
 	out.Finish()
 }
